@@ -2,11 +2,13 @@
 //!
 //! op lines (one history per line)
 //!   traj  <ref|-> <report>… @ <truth>…     update_reference = None (fixed receiver reference)
-//!   traju <ref|-> <report>… @ <truth>…     update_reference = Some(|m| m.alt < 5000)   (jet1090's closure)
+//!   traju <ref|-> <report>… @ <truth>…     update_reference = Some(|m| m.alt < 5000)   (jet1090 --update-position)
+//!   trajd <ref|-> <report>… @ <truth>…     update_reference = Some(|m| m.alt < 1000)   (decode1090, always)
 //!     <ref>     `a/4294967296,b/4294967296` (receiver reference, exact dyadic degrees) or `-`
 //!     <report>  `t/1024:addr:kind:parity:yz:xz:low`  t = time stamp in 1/1024 s (f64 arithmetic on such
 //!               time stamps is exact), addr = ICAO address (decimal), kind a|s|o (BDS 0,5 | BDS 0,6 | other ME),
-//!               low = 1 when the altitude of the BDS 0,5 message is below 5000 ft
+//!               low = 1 when the altitude of the BDS 0,5 message is below the closure's threshold (5000 ft
+//!               for traj/traju, 1000 ft for trajd), i.e. when the callers' closure answers true
 //!     <truth>   `a:b` simulated true position of the aircraft when the report was encoded (2^-32 degree
 //!               units) or `-`; ignored by the model driver, used by the oracle on replay
 //!   answer: `ok <item>…`, one item per report: `-` (no position attached) or `lat,lon`
@@ -60,6 +62,8 @@ pub struct Rep {
 #[derive(Clone, Debug)]
 pub struct Hist {
     pub upd: bool,
+    /// with `upd`: decode1090's closure (`alt < 1000`, op word `trajd`) instead of jet1090's (`alt < 5000`)
+    pub d1090: bool,
     pub reference: Option<(i64, i64)>,
     pub reps: Vec<Rep>,
 }
@@ -68,7 +72,7 @@ pub struct Hist {
 // real frames
 // ---------------------------------------------------------------------------------------------
 
-fn me_bytes(rng: &mut Rng, r: &Rep) -> [u8; 7] {
+fn me_bytes(rng: &mut Rng, r: &Rep, d1090: bool) -> [u8; 7] {
     let me: u64 = match r.kind {
         Kind::Air => {
             let tcs = [9u64, 10, 11, 12, 13, 14, 15, 16, 17, 18, 20, 21, 22];
@@ -76,7 +80,12 @@ fn me_bytes(rng: &mut Rng, r: &Rep) -> [u8; 7] {
             let ss = rng.below(4);
             let saf = rng.below(2);
             // 12-bit altitude code with the Q bit: altitude = 25 n - 1000 ft, n on 11 bits
-            let n = if r.low { 44 + rng.below(196) } else { 280 + rng.below(1500) }; // 100..4975 ft | >= 6000 ft
+            let n = match (d1090, r.low) {
+                (false, true) => 44 + rng.below(196),   // 100..4975 ft: below jet1090's 5000 ft
+                (false, false) => 280 + rng.below(1500), // >= 6000 ft
+                (true, true) => 44 + rng.below(36),     // 100..975 ft: below decode1090's 1000 ft
+                (true, false) => 80 + if rng.chance(1, 4) { 0 } else { rng.below(1660) }, // >= 1000 ft (exactly 1000 ft included)
+            };
             let alt = ((n & 0x7f0) << 1) | 0x010 | (n & 0xf);
             let t = rng.below(2);
             tc << 51 | ss << 49 | saf << 48 | (alt & 0xfff) << 36 | t << 35 | (r.p as u64) << 34
@@ -101,13 +110,13 @@ fn me_bytes(rng: &mut Rng, r: &Rep) -> [u8; 7] {
     b
 }
 
-fn frame(rng: &mut Rng, r: &Rep) -> Vec<u8> {
+fn frame(rng: &mut Rng, r: &Rep, d1090: bool) -> Vec<u8> {
     let mut f = vec![0u8; 14];
     f[0] = if r.df18 { 0x90 } else { 0x8D }; // DF18 CF=0 (ADS-B from a non-transponder device) | DF17 CA=5
     f[1] = (r.addr >> 16) as u8;
     f[2] = (r.addr >> 8) as u8;
     f[3] = r.addr as u8;
-    f[4..11].copy_from_slice(&me_bytes(rng, r));
+    f[4..11].copy_from_slice(&me_bytes(rng, r, d1090));
     let rem = modes_checksum(&f, 112).expect("checksum");
     f[11] = (rem >> 16) as u8;
     f[12] = (rem >> 8) as u8;
@@ -136,11 +145,13 @@ fn attached(m: &Message) -> Option<Option<(f64, f64)>> {
     })
 }
 
-fn updater(upd: bool) -> UpdateIf {
-    if upd {
-        Some(Box::new(|pos: &AirbornePosition| pos.alt.is_some_and(|alt| alt < 5000)) as Box<dyn Fn(&AirbornePosition) -> bool>)
-    } else {
-        None
+/// the callers' closures, copied from crates/jet1090/src/main.rs (`--update-position`: `alt < 5000`) and
+/// crates/decode1090/src/main.rs (always: `alt < 1000`)
+fn updater(upd: bool, d1090: bool) -> UpdateIf {
+    match (upd, d1090) {
+        (false, _) => None,
+        (true, false) => Some(Box::new(|pos: &AirbornePosition| pos.alt.is_some_and(|alt| alt < 5000)) as Box<dyn Fn(&AirbornePosition) -> bool>),
+        (true, true) => Some(Box::new(|pos: &AirbornePosition| pos.alt.is_some_and(|alt| alt < 1000)) as Box<dyn Fn(&AirbornePosition) -> bool>),
     }
 }
 
@@ -151,7 +162,7 @@ fn to_position(r: Option<(i64, i64)>) -> Option<Position> {
 type Outs = Vec<Option<(f64, f64)>>;
 
 /// the real batch driver
-fn run_batch(frames: &[(i64, Vec<u8>)], reference: Option<(i64, i64)>, upd: bool) -> Option<Outs> {
+fn run_batch(frames: &[(i64, Vec<u8>)], reference: Option<(i64, i64)>, upd: bool, d1090: bool) -> Option<Outs> {
     guarded(|| {
         let mut res: Vec<TimedMessage> = frames
             .iter()
@@ -163,17 +174,17 @@ fn run_batch(frames: &[(i64, Vec<u8>)], reference: Option<(i64, i64)>, upd: bool
                 decode_time: None,
             })
             .collect();
-        decode_positions(&mut res, to_position(reference), &updater(upd));
+        decode_positions(&mut res, to_position(reference), &updater(upd, d1090));
         res.iter().map(|m| attached(m.message.as_ref().unwrap()).expect("extended squitter")).collect()
     })
 }
 
 /// the real single-report function in a caller-side loop (jet1090, decode1090)
-fn run_loop(frames: &[(i64, Vec<u8>)], reference: Option<(i64, i64)>, upd: bool) -> Option<Outs> {
+fn run_loop(frames: &[(i64, Vec<u8>)], reference: Option<(i64, i64)>, upd: bool, d1090: bool) -> Option<Outs> {
     guarded(|| {
         let mut aircraft: BTreeMap<ICAO, AircraftState> = BTreeMap::new();
         let mut reference = to_position(reference);
-        let update = updater(upd);
+        let update = updater(upd, d1090);
         let mut outs = vec![];
         for (t, f) in frames {
             let mut m = Message::try_from(f.as_slice()).expect("frame decodes");
@@ -209,7 +220,11 @@ fn same_bits(a: &Outs, b: &Outs) -> bool {
 // ---------------------------------------------------------------------------------------------
 
 fn op_line(h: &Hist) -> String {
-    let mut s = String::from(if h.upd { "traju " } else { "traj " });
+    let mut s = String::from(match (h.upd, h.d1090) {
+        (false, _) => "traj ",
+        (true, false) => "traju ",
+        (true, true) => "trajd ",
+    });
     match h.reference {
         Some((a, b)) => s += &format!("{},{}", rat_units(a), rat_units(b)),
         None => s += "-",
@@ -264,9 +279,10 @@ fn show_outs(o: &Option<Outs>) -> String {
 
 fn parse_hist(line: &str) -> Option<Hist> {
     let w: Vec<&str> = line.split_whitespace().collect();
-    let upd = match *w.first()? {
-        "traj" => false,
-        "traju" => true,
+    let (upd, d1090) = match *w.first()? {
+        "traj" => (false, false),
+        "traju" => (true, false),
+        "trajd" => (true, true),
         _ => return None,
     };
     let unit_of = |s: &str| -> Option<i64> {
@@ -332,7 +348,7 @@ fn parse_hist(line: &str) -> Option<Hist> {
             }
         }
     }
-    Some(Hist { upd, reference, reps })
+    Some(Hist { upd, d1090, reference, reps })
 }
 
 // ---------------------------------------------------------------------------------------------
@@ -341,11 +357,64 @@ fn parse_hist(line: &str) -> Option<Hist> {
 
 pub const LIMIT_M: f64 = 25.0;
 
+/// Failure class of the RECORDED finding `C06-update-reference-moves-surface-reference`: with an
+/// `update_reference` callback the one receiver reference shared by all aircraft is replaced by the position of
+/// any aircraft on which the closure answers true; a surface report of ANOTHER aircraft, farther than the
+/// surface unambiguous range (45 NM) from that fix, is then decoded one or more surface zones off.
+/// Every other wrong position keeps the class `far` (a new violation).
+pub const KNOWN_REF_CLASS: &str = "far-after-reference-update";
+const NM45_M: f64 = 45.0 * 1852.0;
+
+/// Is the wrong position `p` attached to the surface report `r` (truth `t`) explained by the reference update?
+///   * `p` is a surface CPR alias of the report (re-encoding `p` gives the report's own YZ/XZ), and
+///   * DIRECT: the reference in force was set by a correctly decoded low fix `rf` of ANOTHER aircraft, more than
+///     45 NM from the truth, and `p` is the alias next to it (within half a surface zone of `rf` on both axes:
+///     what local decoding against `rf` returns); or
+///   * CONTINUED: the last position attached to this aircraft was itself such a recorded wrong position and
+///     `p` is within 1 km of it (the decoder's continuity test: `latest.pos` younger than 180 s is preferred to
+///     the reference).
+/// Returns the explanation, or None (then the failure is an ordinary `far`).
+fn explained_by_reference(
+    tab: &[(i128, u32)],
+    r: &Rep,
+    t: (f64, f64),
+    p: (f64, f64),
+    ref_by: Option<(u32, (f64, f64), bool)>,
+    last: Option<((f64, f64), bool)>,
+) -> Option<String> {
+    if !(p.0.is_finite() && p.1.is_finite() && p.0.abs() <= 90.0) {
+        return None;
+    }
+    let (pa, pb) = (clamp_lat(units(p.0)), wrap_lon(units(p.1)));
+    let e = encode(tab, 19, r.p, pa, pb);
+    if (e.yz, e.xz) != (r.yz, r.xz) {
+        return None;
+    }
+    if let Some(((qa, qo), true)) = last {
+        let d = dist_m(p.0, p.1, qa, qo);
+        if d <= 1005.0 {
+            return Some(format!("continues the wrong position ({qa:.6}, {qo:.6}) attached to its previous report ({d:.0} m from it)"));
+        }
+    }
+    if let Some((a2, rf, true)) = ref_by {
+        let (dlat, dlon) = surf_zone(tab, r.p, pa, pb);
+        let dl = (p.1 - rf.1) - 360.0 * ((p.1 - rf.1) / 360.0).round();
+        let far_ref = dist_m(t.0, t.1, rf.0, rf.1);
+        if a2 != r.addr && far_ref > NM45_M && (p.0 - rf.0).abs() <= dlat / 2.0 * (1.0 + 1e-6) && dl.abs() <= dlon / 2.0 * (1.0 + 1e-6) {
+            return Some(format!(
+                "the receiver reference had been replaced by the low fix ({:.6}, {:.6}) of aircraft {a2}, {:.0} m from this aircraft: the attached position is the surface alias next to that fix",
+                rf.0, rf.1, far_ref
+            ));
+        }
+    }
+    None
+}
+
 fn do_hist(out: &mut Out, rng: &mut Rng, tab: &[(i128, u32)], h: &Hist, tag: &str) {
     let op = op_line(h);
-    let frames: Vec<(i64, Vec<u8>)> = h.reps.iter().map(|r| (r.t, frame(rng, r))).collect();
-    let batch = run_batch(&frames, h.reference, h.upd);
-    let lp = run_loop(&frames, h.reference, h.upd);
+    let frames: Vec<(i64, Vec<u8>)> = h.reps.iter().map(|r| (r.t, frame(rng, r, h.d1090))).collect();
+    let batch = run_batch(&frames, h.reference, h.upd, h.d1090);
+    let lp = run_loop(&frames, h.reference, h.upd, h.d1090);
     out.case(&op, &show_outs(&batch));
     out.stat(&format!("hist:{tag}"));
     out.stat_n("reports", h.reps.len() as u64);
@@ -357,12 +426,20 @@ fn do_hist(out: &mut Out, rng: &mut Rng, tab: &[(i128, u32)], h: &Hist, tag: &st
         out.fail("batch-vs-loop", &op, &format!("decode_positions: {} ; decode_position loop: {}", show_outs(&Some(batch.clone())), show_outs(&Some(lp))));
     }
     // 1. never a wrong position
+    // With a callback, the shared receiver reference is replaced by every attached fix on which the closure
+    // answers true.  `ref_by` = (address, position, judged right) of the fix that set the reference in force;
+    // `last_out` = per address, the last attached position and whether it was a recorded wrong one.
+    let mut ref_by: Option<(u32, (f64, f64), bool)> = None;
+    let mut last_out: BTreeMap<u32, ((f64, f64), bool)> = BTreeMap::new();
+    let mut known_reported = false;
     for (i, (r, o)) in h.reps.iter().zip(&batch).enumerate() {
         let k = match r.kind {
             Kind::Air => "air",
             Kind::Surf => "surf",
             Kind::Other => "other",
         };
+        let mut right = false;
+        let mut known_wrong = false;
         match (o, r.truth) {
             (Some((la, lo)), Some((a, b))) => {
                 // a replayed line must carry the encoding of its point
@@ -373,21 +450,50 @@ fn do_hist(out: &mut Out, rng: &mut Rng, tab: &[(i128, u32)], h: &Hist, tag: &st
                 }
                 let d = dist_m(deg(a), deg(b), *la, *lo);
                 if !(d <= LIMIT_M) {
-                    out.fail(
-                        "far",
-                        &op,
-                        &format!(
-                            "report {i} ({k}, t={}s, addr {}): aircraft at ({:.6}, {:.6}) but ({:.6}, {:.6}) attached: {:.0} m away [{tag}]",
-                            r.t as f64 / TICKS as f64, r.addr, deg(a), deg(b), la, lo, d
-                        ),
+                    let why = if h.upd && r.kind == Kind::Surf {
+                        explained_by_reference(tab, r, (deg(a), deg(b)), (*la, *lo), ref_by, last_out.get(&r.addr).copied())
+                    } else {
+                        None
+                    };
+                    let detail = format!(
+                        "report {i} ({k}, t={}s, addr {}): aircraft at ({:.6}, {:.6}) but ({:.6}, {:.6}) attached: {:.0} m away [{tag}]",
+                        r.t as f64 / TICKS as f64, r.addr, deg(a), deg(b), la, lo, d
                     );
-                    out.stat(&format!("attached:{k}:wrong"));
+                    match why {
+                        Some(w) => {
+                            // the recorded finding (known_findings.d/C06.json): one failure line per history
+                            known_wrong = true;
+                            if !known_reported {
+                                out.fail(KNOWN_REF_CLASS, &op, &format!("{detail}; {w}"));
+                                known_reported = true;
+                            }
+                            out.stat(&format!("attached:{k}:wrong-after-reference-update"));
+                        }
+                        None => {
+                            out.fail("far", &op, &detail);
+                            out.stat(&format!("attached:{k}:wrong"));
+                        }
+                    }
                 } else {
+                    right = true;
                     out.stat(&format!("attached:{k}:right"));
                 }
             }
             (Some(_), None) => out.stat(&format!("attached:{k}:unjudged")),
             (None, _) => out.stat(&format!("attached:{k}:none")),
+        }
+        match (r.kind, o) {
+            (Kind::Other, _) => {}
+            (_, Some(pos)) => {
+                last_out.insert(r.addr, (*pos, known_wrong));
+                if h.upd && r.kind == Kind::Air && r.low {
+                    ref_by = Some((r.addr, *pos, right));
+                }
+            }
+            (Kind::Air, None) => {
+                last_out.remove(&r.addr);
+            }
+            (Kind::Surf, None) => {}
         }
     }
     // 2. no interference under a fixed reference
@@ -399,7 +505,7 @@ fn do_hist(out: &mut Out, rng: &mut Rng, tab: &[(i128, u32)], h: &Hist, tag: &st
             for a in addrs {
                 let idx: Vec<usize> = (0..h.reps.len()).filter(|i| h.reps[*i].addr == a).collect();
                 let sub: Vec<(i64, Vec<u8>)> = idx.iter().map(|i| frames[*i].clone()).collect();
-                let alone = run_batch(&sub, h.reference, false);
+                let alone = run_batch(&sub, h.reference, false, false);
                 let together: Outs = idx.iter().map(|i| batch[*i]).collect();
                 match alone {
                     None => out.fail("panic", &op, "decode_positions panicked on a sub-history"),
@@ -761,7 +867,7 @@ fn gen_cruise(rng: &mut Rng, tab: &[(i128, u32)], thorough: bool) -> Hist {
     } else {
         None
     };
-    Hist { upd: false, reference, reps: interleave(rng, streams) }
+    Hist { upd: false, d1090: false, reference, reps: interleave(rng, streams) }
 }
 
 /// a pair stretched to the limit: reports every 9.6–9.99 s, alternating parity, at full speed in the
@@ -790,7 +896,7 @@ fn gen_stretch(rng: &mut Rng, tab: &[(i128, u32)]) -> Hist {
             _ => 10 * TICKS - rng.range(1, 400),
         };
     }
-    Hist { upd: false, reference: None, reps }
+    Hist { upd: false, d1090: false, reference: None, reps }
 }
 
 /// an airborne gap that lands on a CPR alias: a burst (which yields a fix), silence while the aircraft flies
@@ -834,7 +940,7 @@ fn gen_air_alias(rng: &mut Rng, tab: &[(i128, u32)]) -> Hist {
     let mut ps = parities(rng, ts.len());
     ps[n1] = q;
     let reps: Vec<Rep> = ts.iter().zip(&ps).map(|(t, p)| f.report(tab, *t, *p)).collect();
-    Hist { upd: false, reference: None, reps }
+    Hist { upd: false, d1090: false, reference: None, reps }
 }
 
 /// surface zone sizes at a surface report's recovered position: (Dlat, Dlon) in degrees
@@ -958,7 +1064,7 @@ fn gen_arrival(rng: &mut Rng, tab: &[(i128, u32)], adversarial: bool, upd: bool,
     } else {
         None
     };
-    Hist { upd, reference, reps }
+    Hist { upd, d1090: false, reference, reps }
 }
 
 /// a departure: surface reports near the receiver, take-off, airborne reports
@@ -992,7 +1098,7 @@ fn gen_departure(rng: &mut Rng, tab: &[(i128, u32)], upd: bool) -> Hist {
     } else {
         None
     };
-    Hist { upd, reference, reps }
+    Hist { upd, d1090: false, reference, reps }
 }
 
 /// several aircraft around one airport (arrivals, departures, overflights), one receiver
@@ -1019,7 +1125,93 @@ fn gen_mixed(rng: &mut Rng, tab: &[(i128, u32)], thorough: bool) -> Hist {
         }
         hs.push(h.reps);
     }
-    Hist { upd: false, reference, reps: interleave(rng, hs) }
+    Hist { upd: false, d1090: false, reference, reps: interleave(rng, hs) }
+}
+
+/// Two airports under one receiver stream with an `update_reference` callback (audit-d M1): aircraft B taxies at
+/// airport P (receiver within 37 NM of P, or none); aircraft A flies LOW — the callers' closure answers true —
+/// around a place Q.  `far_apart`: Q is 150–250 km from P (more than the 45 NM unambiguous range of a surface
+/// report), so that once A's fix has replaced the shared reference, B's surface reports are decoded against a
+/// reference of the wrong zone.  `!far_apart` (control): Q is 5–70 km from P — nothing may go wrong.
+/// B never takes off here (a wrong last position could otherwise leak into its airborne reports).
+fn gen_two_airports(rng: &mut Rng, tab: &[(i128, u32)], far_apart: bool, d1090: bool, thorough: bool) -> Hist {
+    let base = base_ticks(rng);
+    let addr_b = random_addr(rng, &[]);
+    let addr_a = random_addr(rng, &[addr_b]);
+    let apt = loop {
+        let a = random_lat(rng, tab);
+        if a.abs() <= 78 * UNIT {
+            break (deg(a), deg(random_lon(rng)));
+        }
+    };
+    let km = if far_apart { 150.0 + rng.f64() * 100.0 } else { 5.0 + rng.f64() * 65.0 };
+    let arc = km * 1000.0 / R_MAX * 180.0 / std::f64::consts::PI;
+    let brg = match rng.below(3) {
+        0 => *rng.pick(&[0.0, 90.0, 180.0, 270.0]),
+        1 => *rng.pick(&[45.0, 135.0, 225.0, 315.0]),
+        _ => rng.f64() * 360.0,
+    };
+    let q = destination(apt.0, apt.1, brg, arc);
+    let q = (q.0.clamp(-85.0, 85.0), q.1);
+    let t0 = base as f64 / TICKS as f64;
+    // A: a low pass / approach around Q, optionally climbing out later (closure false from then on)
+    let low_leg = leg_from(t0, q, random_brg(rng), 100.0 + rng.f64() * 180.0, false, true);
+    let mut legs = vec![low_leg];
+    if rng.chance(1, 3) {
+        let tt = t0 + 20.0 + rng.f64() * 200.0;
+        let f0 = Flight { addr: addr_a, legs: legs.clone(), df18: false };
+        let (a, b, _) = f0.at(tt);
+        legs.push(leg_from(tt, (deg(a), deg(b)), random_brg(rng), 200.0 + rng.f64() * 250.0, false, false));
+    }
+    let fa = Flight { addr: addr_a, legs, df18: rng.chance(1, 8) };
+    let n_a = 4 + rng.below(if thorough { 30 } else { 12 }) as usize;
+    let ts_a: Vec<i64> = if rng.chance(1, 2) {
+        // a dense burst: the second report already gets a fix
+        let mut t = base + rng.range(0, 3 * TICKS);
+        (0..n_a)
+            .map(|_| {
+                let x = t;
+                t += rng.range(TICKS * 2 / 5, TICKS * 3 / 5);
+                x
+            })
+            .collect()
+    } else {
+        let first = base + rng.range(0, 3 * TICKS);
+        schedule(rng, first, n_a)
+    };
+    let ps_a: Vec<u32> = {
+        let p0 = rng.below(2) as u32;
+        let mut v = parities(rng, ts_a.len());
+        // the first two alternate, so that a fix exists early
+        v[0] = p0;
+        v[1] = p0 ^ 1;
+        v
+    };
+    let mut reps_a: Vec<Rep> = ts_a.iter().zip(&ps_a).map(|(t, p)| fa.report(tab, *t, *p)).collect();
+    // B: taxiing at P; starts before A's first fix (then its own last position protects it until a gap of
+    // 180 s) or after it
+    let fb = Flight { addr: addr_b, legs: vec![leg_from(t0 - 4000.0, apt, rng.f64() * 360.0, rng.f64() * 40.0, true, false)], df18: false };
+    let n_b = 4 + rng.below(if thorough { 30 } else { 12 }) as usize;
+    let start_b = if rng.chance(2, 3) { ts_a[1] + rng.range(1, 120 * TICKS) } else { base - rng.range(0, 300 * TICKS) };
+    let ts_b = schedule(rng, start_b, n_b);
+    let ps_b = parities(rng, ts_b.len());
+    let mut reps_b: Vec<Rep> = ts_b.iter().zip(&ps_b).map(|(t, p)| fb.report(tab, *t, *p)).collect();
+    if rng.chance(1, 2) {
+        damage(rng, &mut reps_a);
+        damage(rng, &mut reps_b);
+    }
+    let reference = if rng.chance(3, 4) {
+        let d = match rng.below(3) {
+            0 => 37.0 / 60.0,
+            1 => rng.f64() * 37.0 / 60.0,
+            _ => rng.f64() * 5.0 / 60.0,
+        } * 0.999;
+        let (la, lo) = destination(apt.0, apt.1, rng.f64() * 360.0, d);
+        Some((clamp_lat(units(la)), wrap_lon(units(lo))))
+    } else {
+        None
+    };
+    Hist { upd: true, d1090, reference, reps: interleave(rng, vec![reps_a, reps_b]) }
 }
 
 pub fn run(out: &mut Out, rng: &mut Rng, thorough: bool) {
@@ -1062,5 +1254,20 @@ pub fn run(out: &mut Out, rng: &mut Rng, thorough: bool) {
     for _ in 0..100 * scale {
         let h = gen_departure(rng, &tab, true);
         do_hist(out, rng, &tab, &h, "departure-update");
+    }
+    // the same two regimes with decode1090's closure (alt < 1000 ft)
+    for _ in 0..50 * scale {
+        let mut h = gen_arrival(rng, &tab, false, true, thorough);
+        h.d1090 = true;
+        do_hist(out, rng, &tab, &h, "arrival-update-d1090");
+    }
+    // two airports, one shared reference (the recorded finding `far-after-reference-update`), and its control
+    for k in 0..60 * scale {
+        let h = gen_two_airports(rng, &tab, true, k % 2 == 0, thorough);
+        do_hist(out, rng, &tab, &h, "two-airports-update");
+    }
+    for k in 0..40 * scale {
+        let h = gen_two_airports(rng, &tab, false, k % 2 == 0, thorough);
+        do_hist(out, rng, &tab, &h, "near-airports-update");
     }
 }
